@@ -199,6 +199,26 @@ ADDED = {
          " Tie B: tools/c2minic.py translates the current source of 24 constant-time leaf functions (comparison / big-number / padding helpers, hex and Base64 encoders and character maps, crypto_verify, canonicity loops, fe25519 cmov / cswap, lookup helpers) into a deep embedding; `ctCheck` (every branch condition, array index, division operand and variable shift amount must be Public) is decided by the kernel for each, and `MiniC.soundness` (proved once, for every program, input and fuel) turns that into non-interference of the branch / address trace of the code as it is now. A rejected function is searched for a concrete pair of inputs with different traces under the MiniC semantics."),
 }
 
+# session 6
+ADDED6 = {
+ "C03": ("; the xmm6int Salsa20 SSE2 / AVX2 code (u0/u1/u4/u8, diagonal state layout) modelled and proved = reference = specification keystream",
+         " The vectorised Salsa20 code (salsa20_xmm6int-sse2.c / -avx2.c with u0 / u1 / u4 / u8.h: diagonal state layout, 64-bit counter lanes with carry inside and between batches, in-place bodies, tails) is modelled from the header text and proved equal to the reference model and the Salsa20 / XSalsa20 specification for every key, nonce, counter and length (Properties/C03SalsaSimd, 41 theorems); the driver cross-runs it on every Salsa20 op; the six files are pinned. Only the xmm6 assembly backend is still compared on sampled inputs."),
+ "C06": ("; statement-order model of seed_keypair / detached sign (incl. Ed25519ph) / verify_detached assembled from the proved pieces: verifier returns 0 iff the strict conditions hold, decoding / encoding = RFC 8032 (two lax-decoding deviations kernel-checked), sign = RFC 8032 and sign-then-verify = 0 under CurveGroup + Faithful",
+         " Ed25519 end to end (Properties/C06Full, C06Full2, C06Full3; 38 theorems): the statement-order models of keypair.c / sign.c / open.c are assembled from the proved SHA-512, sc25519 and ge25519 models and run by the driver; `verify_returns_zero_iff` (S canonical, A canonical / decodable / not small order, R decodable / not small order, the code's final small-order test); ge25519_frombytes (both forms) = lax RFC 8032 decoding with the root selection proved equal to the RFC's, p3_tobytes / tobytes = encoding, decode of encode = id; key generation and signing equal Spec.Ed25519 byte for byte and every honest signature verifies, under the explicit hypotheses CurveGroup + Faithful + [L]B = 0 (facts about edwards25519) and the side condition that R and A pass the small-order tests; the verifier's final comparison is characterised exactly (4*Delta = 0 up to a spoiled-denominator disjunct), neither the cofactorless nor the 8-cofactored equation. The function bodies are pinned."),
+ "C08": ("; the SSE2 scrypt core and both escrypt_kdf functions proved = RFC 7914 end to end",
+         " scrypt is now proved end to end: the SSE2 Salsa20/8 core on its shuffled word layout, blockmix / blockmix_xor / integerify, both smix functions on bytes, escrypt_kdf_sse = escrypt_kdf_nosse = RFC 7914 scrypt for every argument with every error return stated (kdfSpec), and crypto_pwhash_scryptsalsa208sha256 = scrypt with pickparams' (N, r, p) (Properties/C08ScryptSse, 35 theorems); new intrinsics validated against the CPU; the driver cross-runs the SSE-structured core; files pinned."),
+ "C11": ("; translator widened to 68 targets / 100 non-interference corollaries (field arithmetic in both limb widths, X25519 ladder, sc25519, ge25519 lookups and scalar multiplications, Salsa / HChaCha cores, Poly1305, SHA-2, BLAKE2b, SipHash)",
+         " Session 6 widened the translator from 24 to 68 targets (100 corollaries over native / noasm / portable configurations): fe25519 arithmetic in the 51-bit and 25.5-bit representations incl. invert / pow22523 / frombytes / tobytes, the ref10 X25519 ladder (secret scalar, public point), sc25519 reduce / mul / muladd / invert, ge25519 cmov8 lookups and both scalar multiplications, crypto_core_salsa / hsalsa20 / hchacha20, poly1305 blocks / finish / update (donna64 and donna32), SHA-256 / SHA-512 transform, update, pad and final, blake2b compress_ref / update / final, SipHash-2-4. Aliased and sub-array arguments are handled by cloning (exact w.r.t. C, with a control showing by-copy passing would differ); for large programs the label context is inferred outside the kernel and CHECKED inside it against a supplied-context checker whose soundness (`soundness_ctx`) is proved. chacha20_encrypt_bytes is refused (its public counter shares an array with the key)."),
+ "C18": ("; randombytes_internal_random.c and the dispatch layer of randombytes.c modelled in the C's structure, the REAL internal generator run deterministically against it",
+         " The default-grade generators are inside the model (Model/RandomInternal, Properties/C18Internal, 29 theorems, for every history of calls): pool bookkeeping invariant (every word handed out once and zeroed, indices in bounds), buf = ChaCha20 keystream under the current key followed by the key-erasure step stated exactly, stir requests exactly 32 seed bytes (16 + 32 the first time), close resets, the dispatch layer forwards sizes exactly and uses the proved rejection loop unless the source supplies its own uniform. The correspondence wraps getentropy / gettimeofday / getpid / open so the real internal generator runs on a scripted outside world (447 histories per configuration). Deviations of the code recorded as theorems (outside the property): with HAVE_GETENTROPY a run-time getentropy failure leaves the key unseeded when the device opens; a fork is misuse, not a re-stir; random() with words left in the pool never checks the pid."),
+ "C19": ("; Tie B: table of static objects / accesses / lock contexts / call graph regenerated from the clang AST on every run, race-freedom theorem over it; shared-const-input rounds in the threaded harness",
+         " Race freedom after initialisation is now a theorem over a table REGENERATED from the source (tools/c2lean_globals.py: 41 objects, 339 functions kept of 37,543, 228 API roots; cross-checked against objdump -t of the built library, which also covers the assembly files): `race_free_after_init` (for any table and policy: the decidable check implies that in every interleaving of any number of threads running any post-init API calls, two conflicting accesses to the same object are lock-protected, thread-local or allow-listed), `table_race_free` (kernel-decided instance), `init_then_race_free` (link to the init protocol), and necessity theorems for each named exception (sodium_misuse, randombytes_set_implementation, randombytes_close, the first-use state of the two generators). Caller-owned memory is not in the table: the threaded harness now also runs 24 rounds per race in which all threads use the SAME const inputs (keys, a precomputed AES-GCM state on first use, messages) against single-threaded references, also under TSan."),
+ "C20": ("; Tie B: allocation skeletons of 28 entry points regenerated from the clang AST on every run, fail-closed decided by the kernel for each and lifted to every oracle",
+         " Tie B (tools/c2lean_alloc.py -> Generated/AllocProgs.lean): the allocation skeleton (every malloc / calloc / mmap / free / munmap, the tests of their results, assignments to struct fields, early returns with their value class, every other condition abstracted as a named boolean input) of 28 entry points of argon2.c, argon2-core.c, pwhash_argon2i(d).c, the scrypt files and utils.c is regenerated on every run as a term of a small deep-embedded language; `goodAll` explores both answers at every request and every abstracted condition and is decided by the kernel for each entry; `fail_closed_of_goodAll` lifts it to every oracle Nat -> Bool and every valuation; the generated programs are proved observationally equal to the hand-written ones of Model/Fault.lean (Properties/C20Gen, 45 theorems). On a failing obligation the tool prints the fault schedule (oracle prefix, named inputs, event trace) as the replay."),
+ "C01": ("; box (easy = detached = afternm) and sealed boxes in both cipher variants compared with the specification under a scripted ephemeral key",
+         " The box and sealed-box families named in the statement are now in the op set: box.easy for both cipher variants (with the harness requiring easy = detached = afternm), sealed boxes produced under a scripted random source compared with epk || box(m, BLAKE2b-192(epk || pk), pk, esk) and the model's sealed boxes opened by the implementation."),
+}
+
 NOT_YET = {}
 
 ALL = ["C%02d" % i for i in range(1, 21)]
@@ -220,6 +240,9 @@ def main():
         if pid in ADDED:
             c["technique"] = c["technique"] + ADDED[pid][0]
             c["text"] = c["text"] + ADDED[pid][1]
+        if pid in ADDED6:
+            c["technique"] = c["technique"] + ADDED6[pid][0]
+            c["text"] = c["text"] + ADDED6[pid][1]
         checks.append({
             "property_id": pid,
             "quick_cmd": "python3 tools/check.py %s --tier quick" % pid,
